@@ -31,7 +31,12 @@ func VfOptimisticWait() {
 		}
 		return nil, nil
 	}
-	es := &optimisticState{putCtx: context.Background(), dht: d, key: "some-key", doneChan: make(chan struct{}, rt),
+	putCtx, putCancel := context.WithCancel(context.Background())
+	defer putCancel()
+	if vfBool("putContextAlreadyDone") {
+		putCancel() // caller cancelled / DHT closed / put timeout while RPCs are pending
+	}
+	es := &optimisticState{putCtx: putCtx, dht: d, key: "some-key", doneChan: make(chan struct{}, rt),
 		peerStates: map[peer.ID]addProviderRPCState{}, returnThreshold: rt}
 	for i := 0; i < r; i++ {
 		p := peer.ID("recipient-" + string(rune('a'+i)))
